@@ -32,12 +32,12 @@ def parseList {α} (p : String → Option α) (s : String) : Option (List α) :=
   if s == "-" then some [] else (s.splitOn ",").mapM p
 
 /-- what the model can execute (anything else is `bad-op`) -/
-def cbSupported (r : CbRule) : Bool := r.strat == 1 || r.strat == 2
+def cbSupported (r : CbRule) : Bool := r.strat ≤ 2
 def flowSupported (r : FlowRule) : Bool :=
   r.rel == 0 && r.ref == 0 && (r.tcs == 0 || (r.tcs == 1 && r.cb == 0 && r.thr > 0))
 
-def hotSupported (r : HotRule) : Bool := r.mtype == 1 && r.cb == 0 && r.pidx == 0 && r.items != 1
-def hotInert (r : HotRule) : Bool := r.cb == 0 && r.thr ≥ bigThr && (r.items != 2 || r.sthr ≥ bigThr)
+def hotSupported (r : HotRule) : Bool := r.mtype == 1 && r.cb ≤ 1 && r.pidx == 0 && r.items != 1
+def hotInert (r : HotRule) : Bool := r.cb ≤ 1 && r.thr ≥ bigThr && (r.items != 2 || r.sthr ≥ bigThr)
 def cbInert (r : CbRule) : Bool := r.strat == 2 && r.thr ≥ bigThr
 def flowInert (r : FlowRule) : Bool := r.tcs == 0 && r.cb == 0 && r.thr ≥ bigThr
 
@@ -45,6 +45,7 @@ structure Flags where
   unclaimed : Bool := false
   steal : Bool := false
   warm : Bool := false
+  after : Bool := false       -- (statistics only) the decision was taken after a reload
 deriving Repr
 
 structure St where
@@ -70,7 +71,7 @@ def assoc {α} (xs : List (Nat × α)) (k : Nat) (v : α) : List (Nat × α) := 
 def nodeOf (s : St) (x : Nat) : Sentinel.LA.Arr Nat := lookup (Sentinel.LA.mk 20 500 s.now) s.nodes x
 
 /-- one entry (with its completion) on resource `x` -/
-def entry (s : St) (x : Nat) (err : Bool) (arg : Nat) : St × String :=
+def entry0 (s : St) (x : Nat) (err : Bool) (arg : Nat) (rt : Nat) : St × String :=
   let node := nodeOf s x
   let s := { s with nodes := assoc s.nodes x node }
   let (fb, w, fcs) := flowScan s.now (flowRead node s.now) (s.flow.ctls x)
@@ -78,7 +79,8 @@ def entry (s : St) (x : Nat) (err : Bool) (arg : Nat) : St × String :=
   match fb with
   | some id => (s, s!"block flow {id}")
   | none =>
-    let (hb, hcs) := if arg = 0 then (none, s.hot.ctls x) else hotScan s.now arg (s.hot.ctls x)
+    let (hb, hw, hcs) := if arg = 0 then (none, 0, s.hot.ctls x) else hotScan s.now arg (s.hot.ctls x)
+    let w := w + hw
     let s := { s with hot := s.hot.set x hcs }
     match hb with
     | some id => (s, s!"block hot {id}")
@@ -90,9 +92,16 @@ def entry (s : St) (x : Nat) (err : Bool) (arg : Nat) : St × String :=
       -- passed every check: the stat slots count the pass, the completion feeds the breakers
       let node := (Sentinel.LA.addAt node s.now 1).1
       let fcs := fcs.map (flowRecordPass s.now)
-      let ccs := ccs.map (cbComplete s.now err)
+      -- the request takes `rt` ms (the clock moves), then completes
+      let s := { s with now := s.now + rt }
+      let ccs := ccs.map (cbComplete s.now rt err)
       ({ s with cb := s.cb.set x ccs, flow := s.flow.set x fcs, nodes := assoc s.nodes x node },
         if w = 0 then "pass" else s!"pass wait {w}")
+
+/-- the clock ends at entry time + `rt` whether the request was refused or not (both phases keep the same clock) -/
+def entry (s : St) (x : Nat) (err : Bool) (arg : Nat) (rt : Nat) : St × String :=
+  let (s', r) := entry0 s x err arg rt
+  ({ s' with now := s.now + rt }, r)
 
 /-- oracle bookkeeping for one reload of a module: per resource, was the list left unchanged (inert rules aside),
     and does the `NoSteal` hypothesis hold -/
@@ -165,11 +174,14 @@ def stepCore (s : St) (ts : List String) : St × Option String :=
     | some t => ({ s with now := t }, none)
     | none => (s, some "bad-op")
   | ["e", x, err] => match x.toNat?, err.toNat? with
-    | some x, some err => let (s, r) := entry s x (err != 0) 0; (s, some r)
+    | some x, some err => let (s, r) := entry s x (err != 0) 0 0; (s, some r)
     | _, _ => (s, some "bad-op")
   | ["e", x, err, a] => match x.toNat?, err.toNat?, a.toNat? with
-    | some x, some err, some a => let (s, r) := entry s x (err != 0) a; (s, some r)
+    | some x, some err, some a => let (s, r) := entry s x (err != 0) a 0; (s, some r)
     | _, _, _ => (s, some "bad-op")
+  | ["e", x, err, a, rt] => match x.toNat?, err.toNat?, a.toNat?, rt.toNat? with
+    | some x, some err, some a, some rt => let (s, r) := entry s x (err != 0) a rt; (s, some r)
+    | _, _, _, _ => (s, some "bad-op")
   | [op, arg] =>
     match op.splitOn "." with
     | [m, "load"] => doLoad false s m false none arg
@@ -224,6 +236,7 @@ def stepOracle0 (s : St) (ts : List String) (line : String) : St × Option Strin
     let x := x.toNat?.getD 0
     let f : Flags := lookup ({} : Flags) s.flags x
     let f := if s.allUnclaimed then { f with unclaimed := true } else f
+    let f := { f with after := s.reloaded }
     ({ s with recA := s.recA.push (res, f) }, some "?")
   | ["t", _] => (s, none)
   | _ =>
@@ -238,7 +251,21 @@ def stepOracle (s : St) (ts : List String) (line : String) : St × Option String
   if r == some "bad-op" then (s', r)
   else if (resPart line).any (·.startsWith "PANIC") then (s', some "bad panic") else (s', r)
 
+/-- `oracle-stats` (measurement only): per case, how many decisions were taken after a reload and how many of those
+    the oracle claims -/
+def stepStats (s : St) (ts : List String) (line : String) : St × Option String :=
+  let (s', r) := stepOracle s ts line
+  match ts with
+  | ["phase", "B"] =>
+    let aft := s.recA.toList.filter fun p => p.2.after
+    let cl := aft.filter fun p => !p.2.unclaimed
+    let st := cl.filter fun p => p.1.any fun r => r.startsWith "block" || (r.splitOn "wait").length > 1
+    (s', some s!"{r.getD "-"} | after={aft.length} claimed={cl.length} claimed-block-or-wait={st.length}")
+  | _ => (s', r)
+
 def run (mode : String) : IO Unit :=
-  if mode == "oracle" then loop ({} : St) stepOracle else loop ({} : St) stepModel
+  if mode == "oracle" then loop ({} : St) stepOracle
+  else if mode == "oracle-stats" then loop ({} : St) stepStats
+  else loop ({} : St) stepModel
 
 end Sentinel.Drv.C14
